@@ -15,7 +15,7 @@
     ignored, capture-unaware), so (1)-(2) hold for ALL patterns; whether the checker agrees is a
     hypothesis of (4) only, and (5) shows it cannot be dropped. *)
 From Coq Require Import NArith List Bool.
-From Pi2 Require Import ML.Syntax ML.Subst ML.Machine Lib.Term Lib.TermFacts Lib.Replay Lib.Embed Gen.PropLib Gen.PropLibSpec.
+From Pi2 Require Import ML.Syntax ML.Subst ML.Machine Lib.Term Lib.TermFacts Lib.Replay Lib.Embed Gen.PropLib Gen.PropLibSpec Lib.NthDef Lib.Nth.
 Import ListNotations.
 Open Scope N_scope.
 
@@ -176,6 +176,28 @@ Example C10_nonvacuous_replay :
 Proof.
   vm_compute. eexists. eexists. repeat split; reflexivity.
 Qed.
+
+(** (6) the index-driven rule [Tautology.conjunction_implies_nth(term, n, l)] (recursive on its counters, so
+    hand-modelled: Lib/NthDef.v [conj_nth], tied differentially): for EVERY list of l >= 1 conjuncts -- each an
+    arbitrary pattern, possibly itself a conjunction -- and every n < l it proves
+    p0 /\ (p1 /\ (... /\ p_{l-1})) -> p_n, the stored conclusion replays, and (for checker-well-formed
+    conjuncts) the compiled bytes execute to that conclusion *)
+Theorem C10_conjunction_implies_nth : forall ps p n, (n < S (length ps))%nat ->
+  conc (conj_nth (big_and p ps) n (S (length ps))) = Some (Imp (big_and p ps) (nth n (p :: ps) p)).
+Proof. exact conj_nth_spec. Qed.
+Print Assumptions C10_conjunction_implies_nth.
+
+Theorem C10_conjunction_implies_nth_replays : forall axs ps p n, (n < S (length ps))%nat ->
+  ax_incl tautology_axioms axs -> pwf (big_and p ps) = true ->
+  owf false axs (conj_nth (big_and p ps) n (S (length ps))) /\
+  compiles_to axs (conj_nth (big_and p ps) n (S (length ps))) (Imp (big_and p ps) (nth n (p :: ps) p)).
+Proof. exact conj_nth_replays. Qed.
+
+(** the case the round-3 seed got wrong: the LAST conjunct is itself a conjunction and is selected whole *)
+Example C10_nth_last_conjunct_is_a_conjunction :
+  conc (conj_nth (big_and (EVar 0) [p_and (EVar 1) (EVar 2)]) 1 2)
+  = Some (Imp (p_and (EVar 0) (p_and (EVar 1) (EVar 2))) (p_and (EVar 1) (EVar 2))).
+Proof. apply (conj_nth_spec [p_and (EVar 1) (EVar 2)] (EVar 0) 1%nat). repeat constructor. Qed.
 
 (** Generalization (proofs/substitution.py): [top_univgen] proves [forall x0 . T] and replays *)
 Example C10_top_univgen :
